@@ -45,6 +45,8 @@ type World struct {
 	// error; the ReadRevisions listing is unaffected.
 	FailRead int
 	ReadN    int
+	// Attempt is a free counter for monitors (e.g. to number the executors they create).
+	Attempt int
 }
 
 func New() *World { return &World{Revs: map[string]*migrate.Revision{}} }
